@@ -270,6 +270,57 @@ pub fn main_loop(progs: &[(&str, Factory)]) {
                }
                Some(if results.iter().all(|b| *b) { "ok".into() } else { "panic in a concurrent run".into() })
             },
+            "concmk" => {
+               // several instances CONSTRUCTED and run at the same time, each on its own OS thread and in its own pool size:
+               // `concmk (<inst> <prog> <pool> <delay ms>)+` — the construction of a later instance (first use of a larger pool)
+               // falls into the middle of the run() of an earlier one
+               let mut specs: Vec<(String, Factory, usize, u64)> = vec![];
+               let mut i = 2;
+               while toks.get(i + 3).is_some() {
+                  let inst = toks.get(i)?.atom()?.to_string();
+                  let pid = toks.get(i + 1)?.atom()?;
+                  let f = progs.iter().find(|(n, _)| *n == pid)?.1;
+                  let pool: usize = toks.get(i + 2)?.atom()?.parse().ok()?;
+                  let delay: u64 = toks.get(i + 3)?.atom()?.parse().ok()?;
+                  specs.push((inst, f, pool, delay));
+                  i += 4;
+               }
+               let barrier = std::sync::Barrier::new(specs.len());
+               struct Sendable(Option<Box<dyn Driver>>);
+               unsafe impl Send for Sendable {}
+               let results: Vec<Sendable> = std::thread::scope(|s| {
+                  let hs: Vec<_> = specs
+                     .iter()
+                     .map(|(_, f, pool, delay)| {
+                        let barrier = &barrier;
+                        let (f, pool, delay) = (*f, *pool, *delay);
+                        s.spawn(move || {
+                           barrier.wait();
+                           std::thread::sleep(std::time::Duration::from_millis(delay));
+                           Sendable(
+                              std::panic::catch_unwind(std::panic::AssertUnwindSafe(|| {
+                                 let mut d = f(Some(pool));
+                                 d.run();
+                                 d
+                              }))
+                              .ok(),
+                           )
+                        })
+                     })
+                     .collect();
+                  hs.into_iter().map(|h| h.join().unwrap_or(Sendable(None))).collect()
+               });
+               let mut all_ok = true;
+               for ((n, _, _, _), r) in specs.into_iter().zip(results) {
+                  match r.0 {
+                     Some(d) => {
+                        insts.insert(n, d);
+                     },
+                     None => all_ok = false,
+                  }
+               }
+               Some(if all_ok { "ok".into() } else { "panic in a concurrently constructed instance".into() })
+            },
             "dump" => Some(insts.get(toks.get(2)?.atom()?)?.dump()),
             "iters" => Some(insts.get(toks.get(2)?.atom()?)?.iters()),
             _ => None,
